@@ -76,6 +76,9 @@ void h_run(Case &c) {
   // modifying history (distances, memattrs, cpukinds, Groups, restrict, allow, Misc ...)
   OpOpts oo; { const char *e = getenv("VERIF_INCLUDE_KNOWN"); oo.allow_cpuless_nodeset_group = e && strstr(e, "F-C02-d"); }
   for (size_t i = 0; i < c.ops.size(); i++) { OpRes r = apply_op(c, c.ops[i], t, oo); c.desc("\n | " + r.desc); }
+  // early exports, before any query refreshes the lazily updated structures: both exporters must bring distances and memory attributes up
+  // to date themselves, so the file and the buffer export agree whichever comes first
+  { bool filefirst = d.chance(1, 2); std::string Ea = xml_of(c, t, 0, filefirst), Eb = xml_of(c, t, 0, !filefirst); CHECK(c, Ea == Eb, "file_vs_buffer", "right after the modifying calls the %s export differs from the %s export made just after it %s", filefirst ? "file" : "buffer", filefirst ? "buffer" : "file", byte_diff(Ea, Eb).c_str()); c.cls(filefirst ? "early-export:file-first" : "early-export:buffer-first"); }
   // annotations
   auto objs = all_objs(t); size_t nann = 0;
   for (auto o : objs) {
@@ -132,6 +135,22 @@ void h_run(Case &c) {
     hwloc_topology_t r2 = reload(c, X2, sp.flags, false, true); hwloc_topology_set_userdata_export_callback(r2, exp_cb);
     { auto va = all_objs(r), vb = all_objs(r2); for (size_t i = 0; i < va.size() && i < vb.size(); i++) { UD *a = (UD *)va[i]->userdata, *b = (UD *)vb[i]->userdata; if (a && b) for (size_t k = 0; k < a->items.size() && k < b->items.size(); k++) b->b64[k] = a->b64[k]; } }   // export with the same encoding choices std::string X3 = xml_of(c, r2, 0, false); CHECK(c, X3 == X2, "fixpoint", "third generation export is not byte-identical %s", byte_diff(X2, X3).c_str());
     for (auto o : all_objs(r2)) delete (UD *)o->userdata; hwloc_topology_destroy(r2); }
+  // support bits when requested: the document carries a generated subset of the fields of struct hwloc_topology_support (names written here
+  // from the public header, not taken from the exporter); a load with IMPORT_SUPPORT reports exactly those, and they survive a second round trip
+  if (d.chance(1, 3)) {
+#define SF(cat, f) {#cat "." #f, [](const struct hwloc_topology_support *s) -> unsigned char { return s->cat->f; }}
+    static const struct { const char *name; unsigned char (*get)(const struct hwloc_topology_support *); } fields[] = {
+      SF(discovery, pu), SF(discovery, numa), SF(discovery, numa_memory), SF(discovery, disallowed_pu), SF(discovery, disallowed_numa), SF(discovery, cpukind_efficiency),
+      SF(cpubind, set_thisproc_cpubind), SF(cpubind, get_thisproc_cpubind), SF(cpubind, set_proc_cpubind), SF(cpubind, get_proc_cpubind), SF(cpubind, set_thisthread_cpubind), SF(cpubind, get_thisthread_cpubind), SF(cpubind, set_thread_cpubind), SF(cpubind, get_thread_cpubind), SF(cpubind, get_thisproc_last_cpu_location), SF(cpubind, get_proc_last_cpu_location), SF(cpubind, get_thisthread_last_cpu_location),
+      SF(membind, set_thisproc_membind), SF(membind, get_thisproc_membind), SF(membind, set_proc_membind), SF(membind, get_proc_membind), SF(membind, set_thisthread_membind), SF(membind, get_thisthread_membind), SF(membind, alloc_membind), SF(membind, set_area_membind), SF(membind, get_area_membind), SF(membind, get_area_memlocation), SF(membind, firsttouch_membind), SF(membind, bind_membind), SF(membind, interleave_membind), SF(membind, weighted_interleave_membind), SF(membind, nexttouch_membind), SF(membind, migrate_membind)};
+#undef SF
+    const size_t NF = sizeof fields / sizeof fields[0]; std::vector<int> want(NF, 0); std::string lines; for (size_t i = 0; i < NF; i++) if (d.chance(1, 2)) { want[i] = d.chance(1, 5) ? d.range(2, 9) : 1; lines += want[i] == 1 ? strf("  <support name=\"%s\"/>\n", fields[i].name) : strf("  <support name=\"%s\" value=\"%d\"/>\n", fields[i].name, want[i]); }
+    bool marker = d.chance(3, 4); if (marker) lines += "  <support name=\"custom.exported_support\"/>\n";
+    std::string S = strip_support(X1); size_t pos = S.rfind("</topology>"); CHECK(c, pos != std::string::npos, "harness_support", "no closing tag"); S.insert(pos, lines);
+    auto verify = [&](hwloc_topology_t q, const char *gen) { const struct hwloc_topology_support *sup = hwloc_topology_get_support(q); for (size_t i = 0; i < NF; i++) CHECK(c, fields[i].get(sup) == want[i], "support_bits", "%s: support %s is %u after a load with IMPORT_SUPPORT, the document says %d", gen, fields[i].name, fields[i].get(sup), want[i]); CHECK(c, (sup->misc->imported_support != 0) == marker, "support_bits", "%s: misc.imported_support is %u, marker %s in the document", gen, sup->misc->imported_support, marker ? "present" : "absent"); };
+    hwloc_topology_t q = reload(c, S, sp.flags | HWLOC_TOPOLOGY_FLAG_IMPORT_SUPPORT, false, false); verify(q, "first import");
+    if (marker) { std::string S2 = xml_of(c, q, 0, false); hwloc_topology_t q2 = reload(c, S2, sp.flags | HWLOC_TOPOLOGY_FLAG_IMPORT_SUPPORT, false, false); verify(q2, "import of the re-export"); hwloc_topology_destroy(q2); }
+    hwloc_topology_destroy(q); c.cls("support-bits:generated-subset"); }
   // v2-format export reloads to the same tree and sets
   { std::string V2 = xml_of(c, t, HWLOC_TOPOLOGY_EXPORT_XML_FLAG_V2, false); hwloc_topology_t q = reload(c, V2, sp.flags, false, false); require_wf(c, q, "v2 reload");
     auto v1 = all_objs(t), v2 = all_objs(q); CHECK(c, v1.size() == v2.size(), "v2_reload", "object count %zu vs %zu", v1.size(), v2.size());
